@@ -43,6 +43,11 @@ def cases(tier, seed):
         for cls in FULL:
             out.append({"kind": "full", "cls": "full:" + cls, "c": cls, "idx": idx, "seed": seed, "maxd": maxd, "dims": list(dims)})
             idx += 1
+    # graded rows containing a pair of rows with bit-identical norms (one the negative of the other), tall shapes
+    for r in range(40 if tier == "quick" else 300):
+        out.append({"kind": "full", "cls": "full:graded_rows", "c": "graded_rows", "idx": 4 * idx, "seed": seed, "maxd": maxd,
+                    "dims": [[3, 2], [5, 3], [7, 3], [4, 1], [6, 5], [9, 4]][r % 6], "twin": True})
+        idx += 1
     for r in range(12 if tier == "quick" else 80):
         out.append({"kind": "history", "cls": "history", "idx": idx, "seed": seed})
         idx += 1
@@ -282,10 +287,21 @@ def _full(spec, ctx, R):
         if embed.rank(A, rtol=1e-9) < min(m, n):
             A = A + refq.diagq(np.full(min(m, n), 5.0), m, n)
         ex = rng.choice([0.0, -3.0, -8.0, -18.0, -30.0, 6.0], size=(n if c == "graded_columns" else m))
+        if spec.get("twin"):
+            ex = rng.permutation(np.resize(np.array([0.0, -4.0, -8.0, 6.0, -3.0]), m))      # at least two different scales
         if c == "graded_columns":
             A = A * (10.0 ** ex)[None, :]
         else:
             A = A * (10.0 ** ex)[:, None]
+            if m > n and spec["idx"] % 2 == 0:
+                # rows with bit-identical norms among the graded rows: one row is the negative (or a copy) of another.  The matrix stays of full
+                # column rank through the remaining m - 1 >= n rows when they are
+                i1, i2 = (int(v) for v in rng.choice(m, size=2, replace=False))
+                A = A.copy()
+                A[i2] = -A[i1] if spec["idx"] % 4 == 0 else A[i1]
+                if embed.rank(np.delete(A, i2, axis=0) * (10.0 ** -ex[np.arange(m) != i2])[:, None], rtol=1e-9) < n:
+                    A[i2] = A[i2] + refq.randq(rng, 1, n)[0] * (10.0 ** ex[i2])
+                ctx.hit("rows:equal_norm_twins_among_graded_rows")
     elif c == "graded_last_pivot":
         # the LAST pivot column (index min(m,n)-1) scaled far below the others by an exact power of two (2^-60, 2^-200, 2^-500): for wide
         # inputs the trailing columns of R only hang on that pivot row
